@@ -398,8 +398,8 @@ def proto_rule(ctx, facts, cfg, pe):
             w = flow.witness(key, ProtoAu.init, q, kind)
             ctx.violation(rid, key, inst, 'in-place decompression protocol broken in %s: %s' % (key.split('::')[-1].split('@')[0], msg),
                           site=f['at'], path=flow.describe_path(key, w), config=cfg)
-    if n < 6:
-        ctx.violation(rid, '<floor>', 'in-place decompression sites', 'found %d sites, expected set_raw_name, delete (x2 impls) and uncompress (x3 impls)' % n, kind='below-floor')
+    if n < 3:     # the pinned tree has 6 (set_raw_name, delete and uncompress, per iterator type); mutators that call uncompress() instead of repeating it leave 3
+        ctx.violation(rid, '<floor>', 'in-place decompression sites', 'found %d sites, expected at least the uncompress() of the three iterator types' % n, kind='below-floor')
 
 
 # ---------------------------------------------------------------------------
@@ -517,8 +517,8 @@ def stale_rule(ctx, facts, cfg):
                           '%s uses, at %s, a record position that was read from the cursor before the packet was replaced by its decompressed form: names in front of the record have grown, '
                           'the bytes are written to / read from the wrong place' % (key.split('::')[-1].split('@')[0], at), site=at,
                           path=flow.describe_path(key, flow.witness(key, StaleAu.init, wit[0], wit[1])) if wit else None, config=cfg)
-    if n < 6:
-        ctx.violation(rid, '<floor>', 'in-place decompression sites', 'found %d sites, expected 6' % n, kind='below-floor')
+    if n < 3:
+        ctx.violation(rid, '<floor>', 'in-place decompression sites', 'found %d sites, expected at least 3' % n, kind='below-floor')
 
 
 # ---------------------------------------------------------------------------
